@@ -11,6 +11,8 @@ package promise
 //@   modifies p.pending, p.res, p.err
 //@   ensures once: old(p.pending) != 1 ==> p.pending == old(p.pending) && p.res == old(p.res) && p.err == old(p.err)
 //@   ensures completed: old(p.pending) == 1 ==> p.pending == 0 && p.res == res && p.err == err
+// closing the channel is what releases the readers of Get: the outcome is stored by then
+//@   at chan.close outcome-stored-before-release: p.res == res && p.err == err
 
 //@ func New [C01]
 //@   modifies nothing
